@@ -116,6 +116,7 @@ def op_pe(facts, fn):
         from .opsum import OpInterp, se_summaries
         it = OpInterp(facts, fn, se_summaries(facts), protocol=False)
         p = PathEnum(facts, fn, interp=it)
+        p.revisit = True
         p.init = {k_: v for k_, v in a.init.items() if not k_.startswith('["$')}
         _ope[k] = p
     return _ope[k]
